@@ -283,6 +283,8 @@ def _gen_value(ctx: _Ctx, cls: type, f: dataclasses.Field, depth: int):
         if ctx.long_left > 0 and depth <= 2 and rng.random() < 0.7:
             ctx.long_left -= 1
             n = rng.choice((126, 127, 128, 130))
+            if not is_struct and kafka_type in ("int8", "int16", "int32", "int64", "bool", "uuid") and rng.random() < 0.15:
+                n = rng.choice((16382, 16383, 16384))  # three-byte compact array count
             saved = ctx.shape
             ctx.shape = {**saved, "fan": 0, "str": "small", "nondefault_rate": 0.2}
             ctx.budget += 4 * n
